@@ -1,3 +1,5 @@
 import Proofs.Hyperslab
+import Proofs.Quote
 import Proofs.Slice
 import Proofs.SliceTuple
+import Proofs.Tree
